@@ -388,11 +388,19 @@ func (d *driver) run(replay string) int {
 	}
 	d.logf("worker built")
 	cfg := d.spec.tier(d.tier)
+	if os.Getenv("VERIF_ONLY_FUZZ") != "" {
+		// development aid: exercise only the native fuzz targets of the thorough tier
+		cfg.Shards, cfg.EnumShards = 0, 0
+	}
 	if replay != "" {
 		b, err := os.ReadFile(replay)
 		if err != nil {
 			fmt.Fprintln(os.Stderr, err)
 			return 2
+		}
+		var fzr fuzzReplay
+		if json.Unmarshal(b, &fzr) == nil && fzr.FuzzTarget != "" {
+			return d.replayFuzz(fzr, replay)
 		}
 		var rf replayFile
 		if json.Unmarshal(b, &rf) != nil || len(rf.Case) == 0 {
@@ -648,6 +656,13 @@ func (d *driver) run(replay string) int {
 		violations = append(violations, violation{path: path, out: o})
 	}
 
+	// native fuzz targets (thorough tier only)
+	if d.tier == "thorough" && len(cfg.Fuzz) > 0 {
+		reps, fv, fu := d.runFuzz(cfg)
+		ev.Coverage.Fuzz = reps
+		violations = append(violations, fv...)
+		undecided = append(undecided, fu...)
+	}
 	// evidence
 	ev.Coverage.DistinctNontrivial = len(hashes)
 	ev.Coverage.Samples = samples
